@@ -109,9 +109,12 @@ class FSRun(object):
         self.error = None
         self.cluster = None
         self.lost = []
+        self.tracer = None
 
 
-def run_script(script):
+def run_script(script, trace=False):
+    """trace=True: the Producer talks to the real client through the recording proxy of producer_fstrace
+    (r.tracer holds the boundary trace in the model's line protocol)"""
     from harness.sim import fullstack as F
     from harness.sim.cluster import Livelock
 
@@ -130,7 +133,14 @@ def run_script(script):
             kw = dict(script["producer"])
             part = kw.pop("partitioner", "rr")
             kw["partitioner_class"] = HashedPartitioner if part == "hashed" else RoundRobinPartitioner
-            producer = afkak.Producer(client, **kw)
+            if trace:
+                from harness.lib import producer_fstrace as T
+
+                r.tracer = T.Tracer(T.cfg_of(script["producer"]), client, kw, TOPICS)
+                producer = r.tracer.producer
+            else:
+                r.tracer = None
+                producer = afkak.Producer(client, **kw)
             for _i, st in steps:
                 if st["at"] > cluster.clock.seconds():
                     cluster.advance(st["at"] - cluster.clock.seconds())
@@ -139,7 +149,10 @@ def run_script(script):
                     sid = st["sid"]
                     key = None if st["key"] is None else bytes.fromhex(st["key"])
                     vals = [msg_value(sid, i, s) for i, s in enumerate(st["sizes"])]
-                    d = producer.send_messages(st["topic"], key=key, msgs=vals)
+                    if r.tracer is not None:
+                        d = r.tracer.send(sid, st["topic"], key, st["sizes"], vals)
+                    else:
+                        d = producer.send_messages(st["topic"], key=key, msgs=vals)
                     r.sends[sid] = dict(topic=st["topic"], key=key, values=vals, t=cluster.clock.seconds(), d=d)
                     r.outcomes[sid] = []
 
@@ -153,13 +166,19 @@ def run_script(script):
                     d.addBoth(done)
                 elif do == "cancel":
                     if st["sid"] in r.sends:
-                        r.sends[st["sid"]]["d"].cancel()
+                        if r.tracer is not None:
+                            r.tracer.cancel(st["sid"])
+                        else:
+                            r.sends[st["sid"]]["d"].cancel()
                 elif do == "stop":
                     r.outstanding_at_stop = [s for s, o in r.outcomes.items() if not o]
                     r.stop_t = cluster.clock.seconds()
                     cluster._seq += 1
                     r.stop_n = cluster._seq
-                    producer.stop()
+                    if r.tracer is not None:
+                        r.tracer.stop()
+                    else:
+                        producer.stop()
                     cluster._seq += 1
                     r.stop_done_n = cluster._seq
                 elif do == "inject":
@@ -175,6 +194,8 @@ def run_script(script):
                 cluster.settle()
             cluster.run_until_idle(timeout=max(0.0, script.get("until", 200.0) - cluster.clock.seconds()))
             r.quiet = cluster.next_timer() is None
+            if r.tracer is not None:
+                r.tracer.finish()
             # sends that were dispatched (not queued any more), never fired, while no batch is in flight
             queued = set(id(q.deferred) for q in producer._batch_reqs)
             r.lost = [sid for sid, sd in r.sends.items() if not r.outcomes[sid] and id(sd["d"]) not in queued] \
@@ -360,13 +381,19 @@ def stage(ctx, res, pid):
     rng = random.Random(ctx.rng.randrange(1 << 30))
     hist = collections.Counter()
     t_bad = 0
+    traced = []
     for i in range(n):
         script = gen_script(rng, pid)
         try:
-            r = run_script(script)
+            r = run_script(script, trace=True)
         except Exception as e:  # a crash of the stack under a scenario is itself a finding to look at
             res.monitor_failures.append({"what": "full-stack run crashed: %r" % (e,), "scenario": script, "tags": ["fullstack:crash"]})
             continue
+        if r.tracer is not None and not r.error:
+            if r.tracer.skipped:
+                hist["fs:trace-not-replayed:" + r.tracer.skipped.split("(")[0].strip()[:50]] += 1
+            else:
+                traced.append((script, r.tracer))
         res.evaluations += 1
         res.traces_validated += 1
         summarize(r, hist)
@@ -378,13 +405,49 @@ def stage(ctx, res, pid):
             if t_bad <= 3:
                 f["scenario"] = script
                 res.monitor_failures.append(f)
+    t_bad += validate_traces(res, pid, traced, hist, t_bad)
     for k, v in hist.items():
         res.count(k, v)
     res.count("fullstack-runs", n)
 
 
+def validate_traces(res, pid, traced, hist, shown=0):
+    """Trace validation: replay the Producer/KafkaClient boundary traces of the full-stack runs to the model
+    (same diff as the scripted correspondence) and evaluate the property's monitors on them.  The looping
+    call's schedule is not checked here: the cluster clock's float times are not on the model's exact grid."""
+    from harness.lib import producer_check as K
+
+    if not traced:
+        return 0
+    mons = [m for m in K.MONITORS[pid] if m != "c19-schedule"]
+    bad = 0
+    for script, tr, d, failed in K.evaluate(pid, traced, monitors=mons):
+        hist["fs:traces-replayed"] += 1
+        hist["fs:trace-steps"] += len(tr.steps)
+        res.evaluations += 1
+        if d is not None:
+            i, want, got = d
+            bad += 1
+            if shown + bad <= 3:
+                res.disagreements.append({
+                    "component": "producer-fullstack", "step": i,
+                    "what": "full stack: the real Producer over the real KafkaClient and the model disagree at boundary step %d (%s)" % (i, tr.steps[i][0]),
+                    "scenario": script, "impl": want, "model": got,
+                    "impl_trace": [[s[0]] + s[1] + [s[2]] for s in tr.steps[:i + 1]],
+                    "tags": ["fullstack-trace:disagree"]})
+            continue
+        for m in failed:
+            bad += 1
+            if shown + bad <= 3:
+                res.monitor_failures.append({
+                    "monitor": m, "what": "full stack boundary trace: " + K.WHAT.get(m, m), "scenario": script,
+                    "impl_trace": [[s[0]] + s[1] + [s[2]] for s in tr.steps],
+                    "tags": ["fullstack-trace:" + m]})
+    return bad
+
+
 def replay(ctx, script, pid):
-    r = run_script(script)
+    r = run_script(script, trace=True)
     print("full-stack replay; producer config:", json.dumps(script["producer"]))
     for sid, outs in sorted(r.outcomes.items()):
         print("  send %d (%s key=%r): %s" % (sid, r.sends[sid]["topic"], r.sends[sid]["key"], outs or "UNRESOLVED"))
@@ -392,6 +455,25 @@ def replay(ctx, script, pid):
         print("  produce n=%d t=%s broker=%s fate=%s: %s" % (e["n"], e["t"], e["broker"], e.get("fate"),
               [(t, p, len(m)) for t, p, m in parts]))
     fails = check(r, pid)
+    if r.tracer is not None and not r.error:
+        if r.tracer.skipped:
+            print("  boundary trace not replayed to the model:", r.tracer.skipped)
+        else:
+            from harness.lib import producer_check as K
+
+            mons = [m for m in K.MONITORS[pid] if m != "c19-schedule"]
+            _s, tr, d, failed = K.evaluate(pid, [(script, r.tracer)], monitors=mons)[0]
+            print("  boundary trace: %d steps replayed to the model" % len(tr.steps))
+            if d is not None:
+                i, want, got = d
+                for st in tr.steps[max(0, i - 8):i]:
+                    print("    ", st[0], "|", "; ".join(st[1]), "|", st[2])
+                print("  MODEL AND IMPLEMENTATION DISAGREE at boundary step %d: %s" % (i, tr.steps[i][0]))
+                print("    impl :", want)
+                print("    model:", got)
+                fails.append({"what": "boundary trace: model and implementation disagree at step %d" % i, "tags": ["fullstack-trace:disagree"]})
+            for m in failed:
+                fails.append({"what": "boundary trace: " + K.WHAT.get(m, m), "tags": ["fullstack-trace:" + m]})
     for f in fails:
         print("  FAIL:", f["what"])
     if fails:
